@@ -82,7 +82,10 @@ def collect(rnd, ids):
             if name not in first:
                 first[name] = o
             print(name, "pinned:", res.get("pinned_tests"), "demo:", res.get("demo_without_patch_rc"), "->", res.get("demo_with_patch_rc"), "check:", o)
-    json.dump(first, open(os.path.join(VERIF, "seeded", "first_run.json"), "w"), indent=1)
+    cur = json.load(open(os.path.join(VERIF, "seeded", "first_run.json")))  # merge: another collect may have run meanwhile
+    for k, v in first.items():
+        cur.setdefault(k, v)
+    json.dump(cur, open(os.path.join(VERIF, "seeded", "first_run.json"), "w"), indent=1)
 
 
 if __name__ == "__main__":
